@@ -459,6 +459,34 @@ def r09_9(run):
     c07.target_learning(run, 'R09.9', states=('NEW', 'NEWRESOLVE'))
 
 
+def r09_10(run):
+    """matched by source address and port: an entry of the pending table leaves it only under *its own key* - the source address
+    of the stream that was matched (or failed).  A sweep over the table that removes entries by another criterion (every entry of
+    one circuit, every entry older than ...) takes away the entries of other connections still in flight, and their streams are
+    then attached wherever Tor likes"""
+    ca = run.idx.cls('_CircuitAttacher', 'circuit')
+    k = 0
+    for u in class_units(run.idx, ca):
+        loops = [n for n in walk_unit(u) if isinstance(n, (ast.For, ast.While, ast.comprehension))]
+        for n in walk_unit(u):
+            rem = None
+            if isinstance(n, ast.Delete) and any(isinstance(t, ast.Subscript) and dotted(t.value) == 'self._circuit_targets' for t in n.targets):
+                rem = n
+            elif isinstance(n, ast.Call) and dotted(n.func) in ('self._circuit_targets.pop', 'self._circuit_targets.popitem', 'self._circuit_targets.clear'):
+                rem = n
+            elif isinstance(n, ast.Assign) and any(dotted(t) == 'self._circuit_targets' for t in n.targets) and u.name != '__init__':
+                rem = n
+            if rem is None:
+                continue
+            k += 1
+            sweeping = [lp for lp in loops if isinstance(lp, (ast.For, ast.While)) and any(x is rem for x in ast.walk(lp)) and 'self._circuit_targets' in src(lp.iter if isinstance(lp, ast.For) else lp.test)]
+            wholesale = isinstance(rem, ast.Assign) or (isinstance(rem, ast.Call) and callee_attr(rem) in ('clear', 'popitem'))
+            run.ob('R09.10', u, rem, 'a pending target is removed only under its own (source address, port) key', not sweeping and not wholesale, slot='sweep@%s' % u.name,
+                   message='%s removes pending targets %s: entries of other connections that are still waiting for their STREAM NEW are lost and those streams get '
+                           '"ATTACHSTREAM <id> 0"' % (u.name, 'while walking the whole table' if sweeping else 'wholesale'))
+    run.floor('R09.10', 'removals from the pending-target table', k, 2)
+
+
 RULES = [
     ('R09.9', 'the target the .exit test looks at is learnt from the NEW / NEWRESOLVE event itself (rule shared with R07.4)', r09_9),
     ('R09.8', 'once-only slots: singleton attacher recorded before the first suspension point; TorState slot emptied on removal, filled on install', r09_8),
@@ -468,6 +496,7 @@ RULES = [
     ('R09.3', 'dominance: .exit targets and "no attacher" return before the attacher is consulted', lambda run: None),
     ('R09.4', 'invalid answers (non-circuit, unknown id, not BUILT) raise and send nothing', lambda run: None),
     ('R09.5', 'attacher slot discipline by path enumeration over (argument, same object, slot empty): refuse second, install => 1, remove => 0', r09_5),
+    ('R09.10', 'who-may-remove: pending targets leave the table only under their own key (no sweep, no wholesale reset)', r09_10),
     ('R09.6', 'key agreement between the via-circuit registry writer and readers; misses give no preference', r09_6),
 ]
 
